@@ -65,6 +65,32 @@ fn via_path(bytes: &[u8]) -> String {
     fmt_rec(res)
 }
 
+/// `from_path` on a named pipe: a path whose metadata reports length 0 although the bytes are there, delivered by the
+/// kernel in whatever pieces the writer's `write` calls and the pipe buffer produce (std::io::pipe + /proc/self/fd).
+fn via_pipe_path(bytes: &[u8]) -> Option<String> {
+    use std::io::Write;
+    let (rd, mut wr) = std::io::pipe().ok()?;
+    use std::os::fd::AsRawFd;
+    let path = format!("/proc/self/fd/{}", rd.as_raw_fd());
+    if !std::path::Path::new(&path).exists() {
+        return None;
+    }
+    let data = bytes.to_vec();
+    let h = std::thread::spawn(move || {
+        // several writes so that the reader sees the content in pieces
+        for c in data.chunks(4096) {
+            if wr.write_all(c).is_err() {
+                break;
+            }
+        }
+        drop(wr);
+    });
+    let res = rosu_map::from_path::<Rec>(&path);
+    drop(rd);
+    let _ = h.join();
+    Some(fmt_rec(res))
+}
+
 fn via_bufreader(cap: usize, bytes: &[u8]) -> String {
     fmt_rec(Rec::decode(BufReader::with_capacity(cap, bytes)))
 }
@@ -419,7 +445,14 @@ pub fn dispatch_prop(toks: &[&str]) -> Option<String> {
         }
         ["frompath", h] => {
             let b = unhex(h);
-            let r = prop_same("from_path", Some(via_path(&b)), &b);
+            let mut r = prop_same("from_path", Some(via_path(&b)), &b);
+            if r == "OK" {
+                // the same bytes behind a path that is not a regular file (seed C08-j: buffer sized from the metadata length)
+                r = match via_pipe_path(&b) {
+                    Some(o) => prop_same("from_path(pipe)", Some(o), &b),
+                    None => r,
+                };
+            }
             Some(if r == "OK" { entry_points(&b).map_or(r, |d| format!("FAIL {d}")) } else { r })
         }
         ["faultsched", evs @ ..] => Some(prop_fault(evs)),
